@@ -1148,6 +1148,9 @@ func (g *Gen) instr(in ssa.Instruction, st *State) {
 			// keep payload identity for pointer payloads
 			if _, isPtr := mi.X.Type().Underlying().(*types.Pointer); isPtr {
 				r = g.val(mi.X, st)
+			} else {
+				// a value payload: a non-nil interface value tagged with its dynamic type (is(x, T) in specifications)
+				w.assume(fmt.Sprintf("(and (> %s 0) (= (%s %s) %d))", r.S, w.itypeFn(), r.S, typeID(mi.X.Type())))
 			}
 		}
 		g.vals[v.(ssa.Value)] = r
@@ -1548,7 +1551,7 @@ func (g *Gen) call(c *ssa.CallCommon, res ssa.Value, st *State, pos token.Pos) {
 		}
 	}()
 	for _, h := range hints {
-		env := &SpecEnv{g: g, st: st, old: g.entry, fn: g.f, argOverride: map[string]Term{}, bound: map[string]Term{}, boundTypes: map[string]types.Type{}, evalBlock: g.curBlock, hintResult: &SV{rv, rvT}}
+		env := &SpecEnv{g: g, st: st, old: g.entry, fn: g.f, argOverride: map[string]Term{}, bound: map[string]Term{}, boundTypes: map[string]types.Type{}, evalBlock: g.curBlock, hintResult: &SV{rv, rvT}, role: roleAssert}
 		// arg0, arg1, …: the actual arguments of this call (the state is the one after the call; arguments are values)
 		for i, a := range c.Args {
 			env.bound[fmt.Sprintf("arg%d", i)] = g.val(a, st)
@@ -1909,7 +1912,7 @@ func heapKeyMatches(key string, spec string) bool {
 func (g *Gen) callWithContract(callee *ssa.Function, ctr *Contract, args []Term, res ssa.Value, st *State, pos token.Pos) {
 	w := g.w
 	line := g.w.prog.Fset.Position(pos).Line
-	env := &SpecEnv{g: g, st: st, old: st, fn: callee, argOverride: map[string]Term{}, bound: map[string]Term{}}
+	env := &SpecEnv{g: g, st: st, old: st, fn: callee, argOverride: map[string]Term{}, bound: map[string]Term{}, role: roleAssert}
 	for i, n := range paramNames(callee) {
 		if i < len(args) {
 			env.argOverride[n] = args[i]
@@ -1973,7 +1976,7 @@ func (g *Gen) callWithContract(callee *ssa.Function, ctr *Contract, args []Term,
 			}
 		}
 	}
-	env2 := &SpecEnv{g: g, st: st, old: pre, fn: callee, argOverride: env.argOverride, bound: map[string]Term{}, results: results}
+	env2 := &SpecEnv{g: g, st: st, old: pre, fn: callee, argOverride: env.argOverride, bound: map[string]Term{}, results: results, role: roleAssume}
 	// frame condition for partially modified whole-struct heaps: unchanged fields stay (prototype: fields not named keep value)
 	g.frameAxioms(ctr, pre, st)
 	for _, e := range ctr.Ensures {
@@ -2218,7 +2221,7 @@ func (g *Gen) panicEdge(pre *State, ctr *Contract, pos token.Pos, calleeName str
 		g.addObNoAssume("panic", fmt.Sprintf("panic_escapes_from_%s@%d", calleeName, line), pos, pst, "false")
 	}
 	if g.ctr != nil {
-		env := &SpecEnv{g: g, st: pst, old: g.entry, fn: g.f, argOverride: map[string]Term{}, bound: map[string]Term{}}
+		env := &SpecEnv{g: g, st: pst, old: g.entry, fn: g.f, argOverride: map[string]Term{}, bound: map[string]Term{}, role: roleAssert}
 		for _, e := range g.ctr.EnsuresOnPanic {
 			t, err := env.evalBool(e.Expr)
 			if err != nil {
@@ -2255,7 +2258,7 @@ func (g *Gen) invokeWithContract(c *ssa.CallCommon, ctr *Contract, args []Term, 
 		over[n] = args[i]
 	}
 	line := g.w.prog.Fset.Position(pos).Line
-	env := &SpecEnv{g: g, st: st, old: st, fn: g.f, argOverride: over, bound: map[string]Term{}, extNames: names, extTypes: typs}
+	env := &SpecEnv{g: g, st: st, old: st, fn: g.f, argOverride: over, bound: map[string]Term{}, extNames: names, extTypes: typs, role: roleAssert}
 	for _, r := range ctr.Requires {
 		t, err := env.evalBool(r.Expr)
 		if err != nil {
@@ -2289,7 +2292,7 @@ func (g *Gen) invokeWithContract(c *ssa.CallCommon, ctr *Contract, args []Term, 
 			}
 		}
 	}
-	env2 := &SpecEnv{g: g, st: st, old: pre, fn: g.f, argOverride: over, bound: map[string]Term{}, extNames: names, extTypes: typs, results: results, ifaceSig: sig}
+	env2 := &SpecEnv{g: g, st: st, old: pre, fn: g.f, argOverride: over, bound: map[string]Term{}, extNames: names, extTypes: typs, results: results, ifaceSig: sig, role: roleAssume}
 	for _, e := range ctr.Ensures {
 		t, err := env2.evalBool(e.Expr)
 		if err != nil {
@@ -2457,7 +2460,7 @@ func (g *Gen) applyPureIdx(callee *ssa.Function, ctr *Contract, args []Term, st 
 		return app // multi-result pure functions: no unfolding in the prototype
 	}
 	if depth < 3 {
-		env := &SpecEnv{g: g, st: st, old: st, fn: callee, argOverride: map[string]Term{}, bound: map[string]Term{}, results: []Term{app}, depth: depth + 1}
+		env := &SpecEnv{g: g, st: st, old: st, fn: callee, argOverride: map[string]Term{}, bound: map[string]Term{}, results: []Term{app}, depth: depth + 1, role: roleAssume}
 		for i, n := range paramNames(callee) {
 			if i < len(args) {
 				env.argOverride[n] = args[i]
@@ -2496,7 +2499,7 @@ func (g *Gen) checkEnsures(ret *ssa.Return, st *State) {
 	if os.Getenv("GOVC_FRAME") != "" {
 		g.checkFrame(ret, st)
 	}
-	env := &SpecEnv{g: g, st: st, old: g.entry, fn: g.f, argOverride: map[string]Term{}, bound: map[string]Term{}, results: results, atReturn: true}
+	env := &SpecEnv{g: g, st: st, old: g.entry, fn: g.f, argOverride: map[string]Term{}, bound: map[string]Term{}, results: results, atReturn: true, role: roleAssert}
 	for _, e := range g.ctr.Ensures {
 		t, err := env.evalBool(e.Expr)
 		if err != nil {
@@ -2560,7 +2563,7 @@ func (g *Gen) checkEnsuresOn(st *State, pos token.Pos, suffix string) {
 			results = append(results, g.w.zero(res.At(i).Type()))
 		}
 	}
-	env := &SpecEnv{g: g, st: st, old: g.entry, fn: g.f, argOverride: map[string]Term{}, bound: map[string]Term{}, results: results, atReturn: true}
+	env := &SpecEnv{g: g, st: st, old: g.entry, fn: g.f, argOverride: map[string]Term{}, bound: map[string]Term{}, results: results, atReturn: true, role: roleAssert}
 	for _, e := range g.ctr.Ensures {
 		t, err := env.evalBool(e.Expr)
 		if err != nil {
@@ -2681,4 +2684,24 @@ func (w *World) heapBound() bool {
 		}
 	}
 	return false
+}
+
+// dynamic type tags of interface values with value payloads
+var typeIDs = map[string]int{}
+
+func typeID(t types.Type) int {
+	k := types.TypeString(t, nil)
+	if id, ok := typeIDs[k]; ok {
+		return id
+	}
+	typeIDs[k] = len(typeIDs) + 1
+	return typeIDs[k]
+}
+
+func (w *World) itypeFn() string {
+	if !w.pureDecl["itype"] {
+		w.pureDecl["itype"] = true
+		w.decls = append(w.decls, "(declare-fun itype (Int) Int)")
+	}
+	return "itype"
 }
